@@ -526,7 +526,12 @@ def boundary_values(spec):
     if c.get("unique_items"):
         out += [{"t": "list", "v": [1, 1]}, {"t": "list", "v": [1, True]}, {"t": "list", "v": [1, {"t": "float", "v": "1.0"}]},
                 {"t": "list", "v": [{"t": "float", "v": "nan"}, {"t": "float", "v": "nan"}]}, {"t": "list", "v": [1, 2, 3]},
-                {"t": "tuple", "v": ["a", "b", "a"]}, {"t": "list", "v": [{"t": "list", "v": [1]}, {"t": "list", "v": [1]}]}]
+                {"t": "tuple", "v": ["a", "b", "a"]}, {"t": "list", "v": [{"t": "list", "v": [1]}, {"t": "list", "v": [1]}]},
+                # equal unhashable items whose text differs (1 vs 1.0, member order)
+                {"t": "list", "v": [{"t": "list", "v": [1, 2]}, {"t": "list", "v": [{"t": "float", "v": "1.0"}, 2]}]},
+                {"t": "list", "v": [{"t": "dict", "v": [["a", 1], ["b", 2]]}, {"t": "dict", "v": [["b", 2], ["a", 1]]}]},
+                {"t": "tuple", "v": [{"t": "list", "v": [True]}, {"t": "list", "v": [1]}]},
+                {"t": "list", "v": [{"t": "dict", "v": [["a", 1]]}, {"t": "dict", "v": [["a", 2]]}]}]
     return [x for x in out if x is not None or True]
 
 
